@@ -630,12 +630,195 @@ Proof.
   destruct (negb _); inversion 1; subst; congruence.
 Qed.
 
+(** ** MsgConvertIntoVestingAccount{Stake}: the schedule part followed by the direct stakingKeeper.Delegate *)
+Lemma lk_stake_ok s x s' : lk_stake s x = (s', LK_OK) ->
+  lk_bond s = true /\ 0 < x /\ x <= lk_bal s /\
+  s' = mklk (mklka (lk_orig (lk_a s)) (lk_lockup (lk_a s)) (lk_vesting (lk_a s)) (lk_start (lk_a s)) (lk_end (lk_a s))
+                   (lk_dv (lk_a s)) (lk_df (lk_a s) + x))
+            (lk_bal s - x) (lk_deleg s + x) (lk_unb s) (lk_now s) (lk_bond s).
+Proof.
+  unfold lk_stake. destruct (lk_bond s); cbn [negb]; [|discriminate].
+  destruct (Z.leb_spec x 0); [discriminate|]. destruct (Z.ltb_spec (lk_bal s) x); [discriminate|].
+  intros Heq; inversion Heq; subst. repeat split; lia.
+Qed.
+
+Lemma lk_stake_fail s x s' r : lk_stake s x = (s', r) -> r <> LK_OK -> s' = s.
+Proof.
+  unfold lk_stake. destruct (negb _); [inversion 1; congruence|]. destruct (x <=? 0); [inversion 1; congruence|].
+  destruct (_ <? _); inversion 1; subst; congruence.
+Qed.
+
+(** an amount that Haqq's delegation guard accepts is staked exactly as MsgDelegate would delegate it *)
+Lemma lk_stake_as_delegate s x : x <= lk_bal s - lk_unvested (lk_a s) (lk_now s) -> lk_stake s x = lk_delegate s x.
+Proof.
+  intros H. unfold lk_stake, lk_delegate. destruct (negb (lk_bond s)); [reflexivity|].
+  destruct (Z.leb_spec x 0); [reflexivity|].
+  destruct (Z.ltb_spec (Z.max (lk_bal s - lk_unvested (lk_a s) (lk_now s)) 0) x); [lia|reflexivity].
+Qed.
+
+Lemma lk_stake_wfs s x s' : lk_wfs s -> lk_stake s x = (s', LK_OK) -> lk_wfs s'.
+Proof.
+  intros Hw E. apply lk_stake_ok in E as (_ & Hx & _ & ->). lk_open s. lk_simp.
+  destruct Hw as (Hwf & ? & ? & ? & ?). rewrite (lk_wf_b_indep _ _ _ _ _ aDv aDf). repeat split; try assumption; lia.
+Qed.
+
+Lemma lk_stake_tracked s x s' : lk_tracked_le_actual s -> lk_stake s x = (s', LK_OK) -> lk_tracked_le_actual s'.
+Proof.
+  intros Ht E. apply lk_stake_ok in E as (Hb & _ & _ & ->). lk_open s. lk_simp. subst sBd. lia.
+Qed.
+
+Definition lkx_oldv (s : lkx_state) : Z := if lx_vesting s then lk_vested (lk_a (lx_s s)) (lk_now (lx_s s)) else 0.
+
+(** a successful stake message, spelled out: the schedule part is exactly what [LxConvertInto] does *)
+Lemma lkx_into_stake_ok m s sg mg g st e l v gst gv s' :
+  lkx_into_stake m s sg mg g st e l v gst gv = (s', LK_OK) ->
+  exists c1 c2 f',
+    lkx_step s (LxConvertInto sg mg g st e l v) = (mklkx c1 true f', LK_OK) /\
+    (lx_vesting s = true /\ lk_add_grant (lx_s s) g st e l v = (c1, LK_OK) \/
+     lx_vesting s = false /\ lk_into_vesting (lx_s s) g st e l v = (c1, LK_OK)) /\
+    lk_now c1 = lk_now (lx_s s) /\
+    let x := lk_stake_amount m (lk_a c1) gst gv (lk_now (lx_s s)) in
+    lk_stake_admissible m (lkx_oldv s) x (lk_vested (lk_a c1) (lk_now (lx_s s))) = true /\
+    lk_stake c1 x = (c2, LK_OK) /\ s' = mklkx c2 true f'.
+Proof.
+  destruct s as [c vk f]. unfold lkx_into_stake, lkx_step, lkx_oldv. cbn [lkx_step_g lx_s lx_vesting lx_funder]. cbv zeta.
+  destruct vk.
+  - destruct mg; cbn [negb snd fst]; [|cbn; discriminate].
+    destruct (N.eqb_spec sg f) as [->|Hne]; cbn [negb snd fst]; [|cbn; discriminate].
+    destruct (lk_add_grant c g st e l v) as [c1 r1] eqn:E1. cbn [fst snd].
+    destruct (N.eqb_spec r1 LK_OK) as [->|Hr1]; cbn [negb]; [|inversion 1; congruence].
+    destruct (lk_stake_admissible _ _ _ _) eqn:Ha; cbn [negb]; [|discriminate].
+    destruct (lk_stake c1 _) as [c2 r2] eqn:E2. cbn [fst snd].
+    destruct (N.eqb_spec r2 LK_OK) as [->|Hr2]; [|inversion 1; congruence].
+    intros Heq; inversion Heq; subst. exists c1, c2, f.
+    pose proof (lk_add_grant_ok _ _ _ _ _ _ _ E1) as (_ & _ & _ & _ & Hc1).
+    split; [reflexivity|]. split; [left; split; reflexivity|]. split; [subst c1; reflexivity|].
+    split; [exact Ha|]. split; [exact E2|reflexivity].
+  - destruct (lk_into_vesting c g st e l v) as [c1 r1] eqn:E1. cbn [fst snd].
+    destruct (N.eqb_spec r1 LK_OK) as [->|Hr1]; cbn [negb]; [|inversion 1; congruence].
+    destruct (lk_stake_admissible _ _ _ _) eqn:Ha; cbn [negb]; [|discriminate].
+    destruct (lk_stake c1 _) as [c2 r2] eqn:E2. cbn [fst snd].
+    destruct (N.eqb_spec r2 LK_OK) as [->|Hr2]; [|inversion 1; congruence].
+    intros Heq; inversion Heq; subst. exists c1, c2, sg.
+    pose proof (lk_into_vesting_ok _ _ _ _ _ _ _ E1) as (_ & _ & Hc1).
+    split; [reflexivity|]. split; [right; split; reflexivity|]. split; [subst c1; reflexivity|].
+    split; [exact Ha|]. split; [exact E2|reflexivity].
+Qed.
+
+Lemma lkx_into_stake_fail m s sg mg g st e l v gst gv s' r :
+  lkx_into_stake m s sg mg g st e l v gst gv = (s', r) -> r <> LK_OK -> s' = s.
+Proof.
+  unfold lkx_into_stake. cbv zeta.
+  destruct (negb (snd _ =? LK_OK)%N); [inversion 1; congruence|].
+  destruct (negb (lk_stake_admissible _ _ _ _)); [inversion 1; congruence|].
+  destruct (lk_stake _ _) as [c2 r2]. cbn [fst snd].
+  destruct (N.eqb_spec r2 LK_OK); inversion 1; subst; congruence.
+Qed.
+
+(** the heart of it: when no unvested coin was delegated before, the amount the code stakes (the vested part of
+    the grant in the message) passes Haqq's delegation guard in the state after the schedule and the deposit were
+    applied — although the guard is not on this path *)
+Lemma lkx_into_stake_guard s c1 g st e l v x :
+  lkx_wfs s -> lkx_safe s ->
+  (lx_vesting s = true /\ lk_add_grant (lx_s s) g st e l v = (c1, LK_OK) \/
+   lx_vesting s = false /\ lk_into_vesting (lx_s s) g st e l v = (c1, LK_OK)) ->
+  lkx_oldv s + x <= lk_vested (lk_a c1) (lk_now (lx_s s)) ->
+  x <= lk_bal c1 - lk_unvested (lk_a c1) (lk_now c1).
+Proof.
+  destruct s as [c vk f]. unfold lkx_wfs, lkx_safe, lkx_oldv. cbn [lx_s lx_vesting].
+  intros Hw Hs [[-> E]|[-> E]] Hx.
+  - apply lk_add_grant_ok in E as (_ & _ & _ & _ & ->). unfold lk_granted_acct in *. lk_open c.
+    unfold lk_safe, lk_unvested in *. lk_proj. lia.
+  - apply lk_into_vesting_ok in E as (_ & _ & ->). lk_open c. unfold lk_unvested in *. lk_proj. lia.
+Qed.
+
+(** the state after the schedule part of a stake message (a merge, or the conversion of a plain account) *)
+Definition lkx_into_part (s : lkx_state) (c1 : lk_state) (g st e : Z) (l v : list lk_period) : Prop :=
+  lx_vesting s = true /\ lk_add_grant (lx_s s) g st e l v = (c1, LK_OK) \/
+  lx_vesting s = false /\ lk_into_vesting (lx_s s) g st e l v = (c1, LK_OK).
+
+Lemma lkx_into_part_wfs s c1 g st e l v : lkx_wfs s -> lkx_into_part s c1 g st e l v -> lk_wfs c1.
+Proof.
+  destruct s as [c vk f]. unfold lkx_wfs, lkx_into_part. cbn [lx_s lx_vesting]. intros Hw [[_ E]|[_ E]].
+  - exact (eq_ind _ (fun p => lk_wfs (fst p)) (lk_step_wfs c (LkAddGrant g st e l v) Hw) _ E).
+  - apply lk_into_vesting_ok in E as (Hg & Hwf & ->). destruct Hw as (_ & _ & _ & Hd & Hu).
+    unfold lk_wfs. lk_proj. repeat split; try assumption; try lia. destruct (lk_bond c); lia.
+Qed.
+
+Lemma lkx_into_part_safe s c1 g st e l v : lkx_wfs s -> lkx_safe s -> lkx_into_part s c1 g st e l v -> lk_safe c1.
+Proof.
+  destruct s as [c vk f]. unfold lkx_wfs, lkx_safe, lkx_into_part. cbn [lx_s lx_vesting]. intros Hw Hs [[-> E]|[-> E]].
+  - exact (eq_ind _ (fun p => lk_safe (fst p)) (lk_step_safe c (LkAddGrant g st e l v) Hw Hs) _ E).
+  - apply lk_into_vesting_ok in E as (Hg & Hwf & ->). pose proof (lk_vested_bounds _ (lk_now c) Hwf) as Hv.
+    unfold lk_safe, lk_unvested in *. lk_proj. lia.
+Qed.
+
+Lemma lkx_into_part_inv s c1 g st e l v : lkx_wfs s -> lkx_inv s -> lkx_tracked s -> lkx_into_part s c1 g st e l v -> lk_inv c1.
+Proof.
+  destruct s as [c vk f]. unfold lkx_wfs, lkx_inv, lkx_tracked, lkx_into_part. cbn [lx_s lx_vesting]. intros Hw Hi Ht [[-> E]|[-> E]].
+  - exact (eq_ind _ (fun p => lk_inv (fst p)) (lk_step_inv c (LkAddGrant g st e l v) Hw Hi (fun _ => Ht)) _ E).
+  - apply lk_into_vesting_ok in E as (Hg & Hwf & ->). destruct Hw as (_ & _ & _ & Hd & Hu). destruct Hi as [Hb _].
+    unfold lk_inv. lk_proj.
+    match goal with |- lk_locked_coins ?A ?T <= _ => pose proof (lk_locked_le_orig A T Hwf) as Hl end. lk_proj.
+    assert (0 <= 0 + (if lk_bond c then lk_deleg c + lk_unb c else 0)) by (destruct (lk_bond c); lia).
+    specialize (Hl ltac:(lia)). lia.
+Qed.
+
+Lemma lkx_into_part_tracked s c1 g st e l v : lkx_wfs s -> lkx_into_part s c1 g st e l v -> lk_tracked_le_actual c1.
+Proof.
+  destruct s as [c vk f]. unfold lkx_wfs, lkx_into_part. cbn [lx_s lx_vesting]. intros Hw [[_ E]|[_ E]].
+  - exact (lk_grant_resets_tracking _ _ _ _ _ _ _ Hw E).
+  - apply lk_into_vesting_ok in E as (_ & _ & ->). unfold lk_tracked_le_actual. lk_proj. destruct (lk_bond c); lia.
+Qed.
+
+Lemma lkx_inv_safe s : lkx_wfs s -> lkx_inv s -> lkx_safe s.
+Proof.
+  unfold lkx_wfs, lkx_inv, lkx_safe. destruct (lx_vesting s); [apply lk_inv_safe|intros _ [H _]; exact H].
+Qed.
+
+(** the whole stake message on the single-denomination state: after the schedule part [c1], an ordinary guarded
+    delegation of the vested part of this grant *)
+Lemma lkx_into_stake_grant_ok s sg mg g st e l v gst gv s' :
+  lkx_wfs s -> lkx_safe s ->
+  lkx_into_stake LkStakeGrant s sg mg g st e l v gst gv = (s', LK_OK) ->
+  exists c1 f', lkx_into_part s c1 g st e l v /\
+    s' = mklkx (fst (lk_step c1 (LkDelegate (lk_grant_vested gst gv (lk_now (lx_s s)))))) true f' /\
+    snd (lk_step c1 (LkDelegate (lk_grant_vested gst gv (lk_now (lx_s s))))) = LK_OK.
+Proof.
+  intros Hw Hs E. apply lkx_into_stake_ok in E as (c1 & c2 & f' & _ & Hc & _ & Ha & E2 & ->). cbv zeta in *.
+  cbn [lk_stake_amount lk_stake_admissible] in *. apply Z.leb_le in Ha.
+  pose proof (lkx_into_stake_guard s c1 g st e l v _ Hw Hs Hc Ha) as Hg.
+  exists c1, f'. split; [exact Hc|]. cbn [lk_step]. rewrite <- (lk_stake_as_delegate c1 _ Hg), E2. split; reflexivity.
+Qed.
+
+(** ... so the stake message is the composition of two steps of the model: the schedule message without the
+    stake option, then an ordinary guarded delegation of the vested part of this grant *)
+Lemma lkx_into_stake_decompose s sg mg g st e l v gst gv s' :
+  lkx_wfs s -> lkx_safe s ->
+  lkx_step s (LxConvertIntoStake sg mg g st e l v gst gv) = (s', LK_OK) ->
+  exists s1, lkx_step s (LxConvertInto sg mg g st e l v) = (s1, LK_OK) /\ lx_vesting s1 = true /\
+    let x := lk_grant_vested gst gv (lk_now (lx_s s)) in
+    0 < x <= lk_bal (lx_s s1) - lk_unvested (lk_a (lx_s s1)) (lk_now (lx_s s1)) /\
+    lkx_oldv s + x <= lk_vested (lk_a (lx_s s1)) (lk_now (lx_s s1)) /\
+    lkx_step s1 (LxBase (LkDelegate x) 0%N) = (s', LK_OK).
+Proof.
+  intros Hw Hs E. unfold lkx_step in E. cbn [lkx_step_g] in E.
+  apply lkx_into_stake_ok in E as (c1 & c2 & f' & E0 & Hc & Hnow & Ha & E2 & ->). cbv zeta in *.
+  cbn [lk_stake_amount lk_stake_admissible] in *. apply Z.leb_le in Ha.
+  pose proof (lkx_into_stake_guard s c1 g st e l v _ Hw Hs Hc Ha) as Hg.
+  exists (mklkx c1 true f'). split; [exact E0|]. split; [reflexivity|]. cbn [lx_s].
+  pose proof (lk_stake_ok _ _ _ E2) as (_ & Hx0 & _ & _).
+  split; [lia|]. split; [rewrite Hnow; exact Ha|].
+  unfold lkx_step. cbn [lkx_step_g lx_s lx_vesting lx_funder lk_needs_funder andb lk_step].
+  rewrite <- (lk_stake_as_delegate c1 _ Hg), E2. reflexivity.
+Qed.
+
 Lemma lkx_eta s : mklkx (lx_s s) (lx_vesting s) (lx_funder s) = s.
 Proof. destruct s; reflexivity. Qed.
 
 Lemma lkx_step_g_fail gd s o s' r : lkx_step_g gd s o = (s', r) -> r <> LK_OK -> s' = s.
 Proof.
-  destruct s as [c vk f]. destruct o as [o sg| |sg m g st e l v|sg nw]; cbn [lkx_step_g lx_s lx_vesting lx_funder].
+  destruct s as [c vk f]. destruct o as [o sg| |sg m g st e l v|sg nw|sg m g st e l v gst gv]; cbn [lkx_step_g lx_s lx_vesting lx_funder].
   - destruct vk.
     + destruct (lk_needs_funder o && negb (sg =? f)%N); [inversion 1; congruence|].
       destruct (lk_step c o) as [c' r'] eqn:E. cbn [fst snd]. inversion 1; subst. intros Hr.
@@ -651,6 +834,7 @@ Proof.
     + destruct (lk_into_vesting c g st e l v) as [c' r'] eqn:E. cbn [fst snd].
       destruct (N.eqb_spec r' LK_OK); inversion 1; subst; congruence.
   - destruct vk; cbn [negb]; [|inversion 1; congruence]. destruct (negb (sg =? f)%N); [inversion 1; congruence|]. destruct (sg =? nw)%N; inversion 1; subst; congruence.
+  - intros E Hr. exact (lkx_into_stake_fail _ _ _ _ _ _ _ _ _ _ _ _ _ E Hr).
 Qed.
 
 (** a successful MsgConvertVestingAccount: the account was a vesting account whose SCHEDULE has nothing
@@ -685,7 +869,7 @@ Proof.
   intros Hw. destruct (lkx_step s o) as [s' r] eqn:E. cbn [fst].
   destruct (N.eq_dec r LK_OK) as [->|Hr]; [|rewrite (lkx_step_g_fail _ _ _ _ _ E Hr); exact Hw].
   unfold lkx_wfs in *. destruct s as [c vk f]. cbn [lx_s] in Hw. unfold lkx_step in E.
-  destruct o as [o sg| |sg m g st e l v|sg nw]; cbn [lkx_step_g lx_s lx_vesting lx_funder] in E.
+  destruct o as [o sg| |sg m g st e l v|sg nw|sg m g st e l v gst gv]; cbn [lkx_step_g lx_s lx_vesting lx_funder] in E.
   - destruct vk.
     + destruct (lk_needs_funder o && negb (sg =? f)%N); [discriminate|]. inversion E; subst. cbn [lx_s]. apply lk_step_wfs, Hw.
     + inversion E; subst. cbn [lx_s]. apply lk_plain_step_wfs, Hw.
@@ -698,6 +882,8 @@ Proof.
       apply lk_into_vesting_ok in E' as (Hg & Hwf & ->). destruct Hw as (_ & _ & _ & Hd & Hu).
       unfold lk_wfs. lk_proj. repeat split; try assumption; try lia. destruct (lk_bond c); lia.
   - destruct vk; cbn [negb] in E; [|discriminate]. destruct (negb (sg =? f)%N); [discriminate|]. destruct (sg =? nw)%N; inversion E; subst. exact Hw.
+  - apply lkx_into_stake_ok in E as (c1 & c2 & f' & _ & Hc & _ & _ & E2 & ->). cbn [lx_s].
+    exact (lk_stake_wfs c1 _ c2 (lkx_into_part_wfs (mklkx c vk f) c1 g st e l v Hw Hc) E2).
 Qed.
 
 Lemma lk_plain_step_ok_inv s o : lk_wfs s -> lkx_plain_ok s -> lkx_plain_ok (fst (lk_plain_step s o)).
@@ -719,14 +905,15 @@ Qed.
 (** "balance >= locked" across the account-type operations: a vesting account keeps [lk_inv], a
     converted account keeps "the discarded schedule locks nothing" *)
 Definition lkx_is_grant (o : lkx_op) : bool :=
-  match o with LxBase o _ => lk_is_grant o | LxConvertInto _ _ _ _ _ _ _ => true | _ => false end.
+  match o with LxBase o _ => lk_is_grant o | LxConvertInto _ _ _ _ _ _ _ => true | LxConvertIntoStake _ _ _ _ _ _ _ _ _ => true
+  | _ => false end.
 Definition lkx_is_slash (o : lkx_op) : bool := match o with LxBase o _ => lk_is_slash o | _ => false end.
 
 Lemma lkx_step_inv s o : lkx_wfs s -> lkx_inv s -> (lkx_is_grant o = true -> lkx_tracked s) -> lkx_inv (fst (lkx_step s o)).
 Proof.
   intros Hw Hi Ht. destruct (lkx_step s o) as [s' r] eqn:E. cbn [fst].
   destruct (N.eq_dec r LK_OK) as [->|Hr]; [|rewrite (lkx_step_g_fail _ _ _ _ _ E Hr); exact Hi].
-  destruct o as [o sg| |sg m g st e l v|sg nw].
+  destruct o as [o sg| |sg m g st e l v|sg nw|sg m g st e l v gst gv].
   - destruct s as [c vk f]. unfold lkx_wfs, lkx_inv, lkx_tracked, lkx_step in *. cbn [lkx_step_g lx_s lx_vesting lx_funder lkx_is_grant] in *.
     destruct vk.
     + destruct (lk_needs_funder o && negb (sg =? f)%N); [discriminate|]. inversion E; subst. cbn [lx_s lx_vesting].
@@ -748,6 +935,10 @@ Proof.
       specialize (Hl ltac:(lia)). lia.
   - destruct s as [c vk f]. unfold lkx_inv, lkx_step in *. cbn [lkx_step_g lx_s lx_vesting lx_funder] in *.
     destruct vk; cbn [negb] in E; [|discriminate]. destruct (negb (sg =? f)%N); [discriminate|]. destruct (sg =? nw)%N; inversion E; subst. exact Hi.
+  - specialize (Ht eq_refl). unfold lkx_step in E. cbn [lkx_step_g] in E.
+    destruct (lkx_into_stake_grant_ok _ _ _ _ _ _ _ _ _ _ _ Hw (lkx_inv_safe s Hw Hi) E) as (c1 & f' & Hc & -> & _).
+    unfold lkx_inv. cbn [lx_s lx_vesting].
+    apply lk_step_inv; [exact (lkx_into_part_wfs s c1 g st e l v Hw Hc)|exact (lkx_into_part_inv s c1 g st e l v Hw Hi Ht Hc)|discriminate].
 Qed.
 
 (** "unvested coins are never delegated" across the account-type operations *)
@@ -756,7 +947,7 @@ Proof.
   intros Hw Hs. destruct (lkx_step s o) as [s' r] eqn:E. cbn [fst].
   destruct (N.eq_dec r LK_OK) as [->|Hr]; [|rewrite (lkx_step_g_fail _ _ _ _ _ E Hr); exact Hs].
   destruct s as [c vk f]. unfold lkx_wfs, lkx_safe, lkx_step in *.
-  destruct o as [o sg| |sg m g st e l v|sg nw]; cbn [lkx_step_g lx_s lx_vesting lx_funder] in *.
+  destruct o as [o sg| |sg m g st e l v|sg nw|sg m g st e l v gst gv]; cbn [lkx_step_g lx_s lx_vesting lx_funder] in *.
   - destruct vk.
     + destruct (lk_needs_funder o && negb (sg =? f)%N); [discriminate|]. inversion E; subst. cbn [lx_s lx_vesting].
       apply lk_step_safe; assumption.
@@ -781,6 +972,9 @@ Proof.
       apply lk_into_vesting_ok in E' as (Hg & Hwf & ->). pose proof (lk_vested_bounds _ (lk_now c) Hwf) as Hv.
       unfold lk_safe, lk_unvested in *. lk_proj. lia.
   - destruct vk; cbn [negb] in E; [|discriminate]. destruct (negb (sg =? f)%N); [discriminate|]. destruct (sg =? nw)%N; inversion E; subst. exact Hs.
+  - destruct (lkx_into_stake_grant_ok (mklkx c vk f) _ _ _ _ _ _ _ _ _ _ Hw Hs E) as (c1 & f' & Hc & -> & _).
+    cbn [lx_s lx_vesting].
+    apply lk_step_safe; [exact (lkx_into_part_wfs (mklkx c vk f) c1 g st e l v Hw Hc)|exact (lkx_into_part_safe (mklkx c vk f) c1 g st e l v Hw Hs Hc)].
 Qed.
 
 Lemma lkx_step_tracked s o : lkx_wfs s -> lkx_tracked s -> lkx_is_slash o = false -> lkx_tracked (fst (lkx_step s o)).
@@ -788,7 +982,7 @@ Proof.
   intros Hw Ht Ho. destruct (lkx_step s o) as [s' r] eqn:E. cbn [fst].
   destruct (N.eq_dec r LK_OK) as [->|Hr]; [|rewrite (lkx_step_g_fail _ _ _ _ _ E Hr); exact Ht].
   destruct s as [c vk f]. unfold lkx_wfs, lkx_tracked, lkx_step in *.
-  destruct o as [o sg| |sg m g st e l v|sg nw]; cbn [lkx_step_g lx_s lx_vesting lx_funder lkx_is_slash] in *.
+  destruct o as [o sg| |sg m g st e l v|sg nw|sg m g st e l v gst gv]; cbn [lkx_step_g lx_s lx_vesting lx_funder lkx_is_slash] in *.
   - destruct vk.
     + destruct (lk_needs_funder o && negb (sg =? f)%N); [discriminate|]. inversion E; subst. cbn [lx_s lx_vesting].
       apply lk_step_tracked; assumption.
@@ -801,6 +995,8 @@ Proof.
       destruct (N.eqb_spec r' LK_OK); [|inversion E; congruence]. subst r'. inversion E; subst. cbn [lx_s lx_vesting].
       apply lk_into_vesting_ok in E' as (_ & _ & ->). unfold lk_tracked_le_actual. lk_proj. destruct (lk_bond c); lia.
   - destruct vk; cbn [negb] in E; [|discriminate]. destruct (negb (sg =? f)%N); [discriminate|]. destruct (sg =? nw)%N; inversion E; subst. exact Ht.
+  - apply lkx_into_stake_ok in E as (c1 & c2 & f' & _ & Hc & _ & _ & E2 & ->). cbn [lx_s lx_vesting].
+    exact (lk_stake_tracked c1 _ c2 (lkx_into_part_tracked (mklkx c vk f) c1 g st e l v Hw Hc) E2).
 Qed.
 
 (** a merge / a conversion into a vesting account re-establishes "tracked = actual" *)
@@ -808,7 +1004,7 @@ Lemma lkx_grant_resets_tracking s o : lkx_wfs s -> lkx_is_grant o = true -> snd 
 Proof.
   intros Hw Hg. destruct (lkx_step s o) as [s' r] eqn:E. cbn [fst snd]. intros ->.
   destruct s as [c vk f]. unfold lkx_wfs, lkx_tracked, lkx_step in *.
-  destruct o as [o sg| |sg m g st e l v|sg nw]; cbn [lkx_step_g lx_s lx_vesting lx_funder lkx_is_grant] in *; try discriminate Hg.
+  destruct o as [o sg| |sg m g st e l v|sg nw|sg m g st e l v gst gv]; cbn [lkx_step_g lx_s lx_vesting lx_funder lkx_is_grant] in *; try discriminate Hg.
   - destruct vk.
     + destruct (lk_needs_funder o && negb (sg =? f)%N); [discriminate|]. inversion E; subst. cbn [lx_s lx_vesting].
       destruct o; try discriminate Hg. cbn [lk_step] in *.
@@ -822,6 +1018,8 @@ Proof.
     + destruct (lk_into_vesting c g st e l v) as [c' r'] eqn:E'. cbn [fst snd] in E.
       destruct (N.eqb_spec r' LK_OK); [|inversion E; congruence]. subst r'. inversion E; subst. cbn [lx_s lx_vesting].
       apply lk_into_vesting_ok in E' as (_ & _ & ->). unfold lk_tracked_le_actual. lk_proj. destruct (lk_bond c); lia.
+  - apply lkx_into_stake_ok in E as (c1 & c2 & f' & _ & Hc & _ & _ & E2 & ->). cbn [lx_s lx_vesting].
+    exact (lk_stake_tracked c1 _ c2 (lkx_into_part_tracked (mklkx c vk f) c1 g st e l v Hw Hc) E2).
 Qed.
 
 Lemma lkx_run_cons o ops s : lkx_run (o :: ops) s = lkx_run ops (fst (lkx_step s o)).
@@ -950,6 +1148,62 @@ Proof.
   split; [vm_compute; reflexivity|]. split; [reflexivity|].
   split; [apply lkx_run_inv_partial; try assumption; reflexivity|].
   split; [apply lkx_run_safe; assumption|]. split; vm_compute; reflexivity.
+Qed.
+
+(** * MsgConvertIntoVestingAccount{Merge, Stake}: which amount is staked
+    Grant #1: 500 coins, vested in four steps of 125 until t = 8000, unlocked at t = 5000.  At t = 20000 the account
+    sends all 500 away (they are spendable).  The funder merges grant #2 of 1000 coins that started at t = 19990
+    (250 vested after 5 s, the rest later; all of it locked up until t = 24990) with the stake option.
+    The code stakes the vested part of grant #2 = 250: balance 750 = unvested 750.
+    Staking the account-wide vested amount of the merged schedule (500 + 250 = 750) instead takes 500 of the 750
+    freshly deposited UNVESTED coins: balance 250 < unvested 750, and the funder's clawback of the unvested coins
+    fails for lack of funds. *)
+Definition lkx_stake_start : lkx_state :=
+  lkx_fresh 500 [(5000, 500)] [(2000, 125); (2000, 125); (2000, 125); (2000, 125)] 0 8000 0 20000 true.
+Definition lkx_stake_lockup' : list lk_period := [(5000, 500); (19990, 1000)].
+Definition lkx_stake_vesting' : list lk_period :=
+  [(2000, 125); (2000, 125); (2000, 125); (2000, 125); (11995, 250); (2000, 250); (2000, 250); (2000, 250)].
+Definition lkx_stake_gv : list lk_period := [(5, 250); (2000, 250); (2000, 250); (2000, 250)].
+Definition lkx_stake_msg (m : lk_stake_mode) (s : lkx_state) : lkx_state * N :=
+  lkx_into_stake m s 0%N true 1000 0 25995 lkx_stake_lockup' lkx_stake_vesting' 19990 lkx_stake_gv.
+Definition lkx_stake_spent : lkx_state := fst (lkx_step lkx_stake_start (LxBase (LkSend 500) 0%N)).
+
+Example lkx_stake_account_wide_refuted :
+  lkx_wfs lkx_stake_start /\ lkx_inv lkx_stake_start /\ lkx_safe lkx_stake_start /\ lkx_tracked lkx_stake_start /\
+  snd (lkx_step lkx_stake_start (LxBase (LkSend 500) 0%N)) = LK_OK /\ lk_bal (lx_s lkx_stake_spent) = 0 /\
+  lk_grant_vested 19990 lkx_stake_gv 20000 = 250 /\
+  (* the code *)
+  lkx_step lkx_stake_spent (LxConvertIntoStake 0%N true 1000 0 25995 lkx_stake_lockup' lkx_stake_vesting' 19990 lkx_stake_gv)
+    = lkx_stake_msg LkStakeGrant lkx_stake_spent /\
+  (let r := lkx_stake_msg LkStakeGrant lkx_stake_spent in
+   snd r = LK_OK /\ lk_deleg (lx_s (fst r)) = 250 /\ lk_bal (lx_s (fst r)) = 750 /\
+   lk_unvested (lk_a (lx_s (fst r))) 20000 = 750 /\ lkx_safe (fst r) /\ lkx_inv (fst r)) /\
+  (* the account-wide amount *)
+  (let r := lkx_stake_msg LkStakeAccount lkx_stake_spent in
+   snd r = LK_OK /\ lk_deleg (lx_s (fst r)) = 750 /\ lk_bal (lx_s (fst r)) = 250 /\
+   lk_unvested (lk_a (lx_s (fst r))) 20000 = 750 /\ ~ lkx_safe (fst r) /\ ~ lkx_inv (fst r) /\
+   snd (lk_clawback (lx_s (fst r)) [(5000, 500); (19990, 250)] 25995) = LK_INSUFFICIENT).
+Proof.
+  destruct (lkx_fresh_ok 500 [(5000, 500)] [(2000, 125); (2000, 125); (2000, 125); (2000, 125)] 0 8000 0 20000 true eq_refl ltac:(lia))
+    as (H1 & H2 & H3 & H4).
+  split; [exact H1|]. split; [exact H2|]. split; [exact H3|]. split; [exact H4|].
+  split; [vm_compute; reflexivity|]. split; [vm_compute; reflexivity|]. split; [vm_compute; reflexivity|].
+  split; [reflexivity|].
+  assert (Hw : lkx_wfs lkx_stake_spent) by (apply lkx_step_wfs; exact H1).
+  assert (Hs : lkx_safe lkx_stake_spent) by (apply lkx_step_safe; assumption).
+  assert (Hi : lkx_inv lkx_stake_spent) by (apply lkx_step_inv; [assumption|assumption|discriminate]).
+  assert (Ht : lkx_tracked lkx_stake_spent) by (apply lkx_step_tracked; [assumption|assumption|reflexivity]).
+  split.
+  - cbv zeta. split; [vm_compute; reflexivity|]. split; [vm_compute; reflexivity|]. split; [vm_compute; reflexivity|].
+    split; [vm_compute; reflexivity|].
+    change (lkx_stake_msg LkStakeGrant lkx_stake_spent) with
+      (lkx_step lkx_stake_spent (LxConvertIntoStake 0%N true 1000 0 25995 lkx_stake_lockup' lkx_stake_vesting' 19990 lkx_stake_gv)).
+    split; [apply lkx_step_safe; assumption|apply lkx_step_inv; [assumption|assumption|intros _; exact Ht]].
+  - cbv zeta. split; [vm_compute; reflexivity|]. split; [vm_compute; reflexivity|]. split; [vm_compute; reflexivity|].
+    split; [vm_compute; reflexivity|].
+    split; [unfold lkx_safe, lk_safe; vm_compute; intros H; apply H; reflexivity|].
+    split; [unfold lkx_inv, lk_inv; vm_compute; intros H; apply H; reflexivity|].
+    vm_compute; reflexivity.
 Qed.
 
 Lemma lk_locked_le_sched_full a t : lk_wf_b a = true -> 0 <= lk_df a + lk_dv a ->
